@@ -15,7 +15,7 @@ from vlib import w as W
 from vlib.core import Ob
 
 PROPERTY_ID = "C15"
-ENGINE = "E2 psx (z3 Real terms through the real numpy code)"
+ENGINE = "E2 psx (z3 Real terms through the real numpy code) + E1 CrossHair for the duplicate expansion"
 TECHNIQUE = "proxy symbolic execution of the real estimator / NJ / UPGMA code on z3 Real terms with forking on every comparison; identities decided by z3 (LOG uninterpreted, matched modulo provably equal arguments); counterexamples replayed with floats"
 CLAIM = (
     "p-distance / JC69 / TN93 from a symbolic count matrix equal the published formulas and are symmetric; for the additive matrix of every binary "
@@ -534,15 +534,68 @@ def mk_upgma(shape_id, n, _replay=None):
     return {"status": "holds", "paths": stats["paths"], "queries": nq, "detail": f"tips={len(tips)}", "solver_s": round(time.time() - t0, 2)}
 
 
+# ---------------------------------------------------------------- duplicates: expansion of the unique-sequence table
+def mk_expand(n):
+    """The estimators are computed for unique sequences only; _PairwiseDistance._expand copies them to the duplicates.
+    The duplicate structure (which sequence is a copy of which earlier one) is SYMBOLIC; E1 CrossHair explores every structure.
+    Oracle: d(a, b) = 0 if a and b are copies of the same sequence, else the value computed for their two originals."""
+
+    def check(r1: int, r2: int, r3: int, r4: int) -> bool:
+        """
+        pre: 0 <= r1 <= 1 and 0 <= r2 <= 2 and 0 <= r3 <= 3 and 0 <= r4 <= 4
+        post: _
+        """
+        from cogent3.evolve.fast_distance import _PairwiseDistance
+
+        rep = [0, r1, r2, r3, r4][:n]
+        for i in range(n):
+            if rep[rep[i]] != rep[i]:
+                return True  # not a valid structure: an original is its own representative
+        names = ["s%d" % i for i in range(n)]
+        uniq = [i for i in range(n) if rep[i] == i]
+        if len(uniq) == n:
+            return True  # no duplicates: nothing to expand (trivial path)
+        # as run() records it: original -> list of later copies, only unique pairs have a statistic
+        duped = {}
+        for i in range(n):
+            if rep[i] != i:
+                duped.setdefault(names[rep[i]], []).append(names[i])
+        value = lambda i, j: 100 + 10 * min(i, j) + max(i, j)  # distinct, non-zero, symmetric
+        pwise = {}
+        for i in uniq:
+            for j in uniq:
+                if i != j:
+                    pwise[(names[i], names[j])] = value(i, j)
+        calc = object.__new__(_PairwiseDistance)
+        calc.names = list(names)
+        calc._duped = duped
+        got = calc._expand(pwise)
+        if not W.reach("end"):
+            return False
+        if len(uniq) <= n - 2 and not W.reach("two_duplicates"):
+            return False
+        for i in range(n):
+            for j in range(n):
+                if i == j:
+                    continue
+                want = 0 if rep[i] == rep[j] else value(rep[i], rep[j])
+                if got.get((names[i], names[j]), None) != want:
+                    return False
+        return True
+
+    return check
+
+
 ENCODED = [
-    ("src/cogent3/evolve/fast_distance.py", ["_hamming", "_jc69_from_matrix", "_tn93_from_matrix", "TN93Pair.__init__ (index tables, concrete)"]),
+    ("src/cogent3/evolve/fast_distance.py", ["_hamming", "_jc69_from_matrix", "_tn93_from_matrix", "TN93Pair.__init__ (index tables, concrete)", "_PairwiseDistance._expand"]),
     ("src/cogent3/phylo/nj.py", ["PartialTree.get_dist_saved_join_score_matrix", "PartialTree.join", "PartialTree.asScoreTreeTuple", "LightweightTreeNode.convert"]),
     ("src/cogent3/cluster/UPGMA.py", ["UPGMA_cluster", "find_smallest_index", "condense_matrix", "condense_node_order"]),
 ]
 BOUNDS = {
     "quick": ["4x4 count matrix of symbolic non-negative reals (counts as reals: the formulas are rational functions of the counts)",
               "NJ: every binary tree shape with 4 and 5 tips, all branch lengths symbolic positive reals; every cherry joined",
-              "UPGMA: every binary rooted shape with 3 and 4 tips, node heights symbolic with parent > child > 0 and < 1e9"],
+              "UPGMA: every binary rooted shape with 3 and 4 tips, node heights symbolic with parent > child > 0 and < 1e9",
+              "duplicates: 3..5 sequences, the copy-of structure symbolic (every partition into originals and copies), statistics distinct concrete values (only copied, never computed on)"],
     "thorough": ["4x4 count matrix of symbolic non-negative reals", "NJ: binary shapes with 4..6 tips", "UPGMA: binary rooted shapes with 3..5 tips"],
 }
 ASSUMPTIONS = [
@@ -551,7 +604,7 @@ ASSUMPTIONS = [
     "NJ induction: the chosen pair is the first off-diagonal entry in ascending score order; proving cherry-minimality + exact join for every shape with <= N tips gives topology and lengths for trees with <= N tips",
     "UPGMA: strict parent > child heights (positive branch lengths); heights < 1e9 << BIG_NUM",
 ]
-OUTSIDE = ["_paralinear / _logdet (LAPACK det / inv)", "numba pairwise counting kernels", "gnj with keep > 1 (argsort tie handling)", "float rounding and exact ties in floats", "_fill_diversity_matrix / duplicate-sequence shortcut"]
+OUTSIDE = ["_paralinear / _logdet (LAPACK det / inv)", "numba pairwise counting kernels", "gnj with keep > 1 (argsort tie handling)", "float rounding and exact ties in floats", "_fill_diversity_matrix and the detection of duplicates in run() (numpy comparisons on count matrices); the expansion of the table to the duplicates IS covered"]
 TRUSTED = ["vlib/psx.py", "the published formulas as written in props/c15.py"]
 
 
@@ -564,6 +617,8 @@ def obligations(tier):
         for s in _binary_unrooted(n):
             obs.append(Ob(f"nj_step/{s['id']}", __name__, "mk_nj_step", {"shape_id": s["id"], "n": n}, kind="direct", timeout=900, group="nj"))
     obs.append(Ob("nj_final_three", __name__, "mk_nj_final", {}, kind="direct", timeout=300, group="nj"))
+    for n in (3, 4, 5):
+        obs.append(Ob(f"expand_duplicates/n{n}", __name__, "mk_expand", {"n": n}, timeout=900, twins=("end", "two_duplicates") if n > 3 else ("end", "two_duplicates"), group="duplicates"))
     for n in ([3, 4, 5] if T else [3, 4]):
         for s in _binary_unrooted(n):
             obs.append(Ob(f"upgma/{s['id']}", __name__, "mk_upgma", {"shape_id": s["id"], "n": n}, kind="direct", timeout=900, group="upgma"))
